@@ -22,7 +22,7 @@ import zlib
 
 from . import wire
 from .sut import World
-from .fakenet import sockaddr, LOCAL_UNICAST, LOCAL_MCAST
+from .fakenet import sockaddr, LOCAL_UNICAST, LOCAL_MCAST, LOCAL_MCAST4
 from .vloop import TICKS_PER_S
 
 UNIT = TICKS_PER_S >> 10
@@ -260,7 +260,7 @@ def run(sched):
         data = step["raw"] if "raw" in step else build_msg(step, reqs, free_mid)
         if isinstance(data, str):
             data = bytes.fromhex(data)
-        local = LOCAL_MCAST if step.get("loc") == "m" else LOCAL_UNICAST
+        local = {"m": LOCAL_MCAST, "m4": LOCAL_MCAST4}.get(step.get("loc"), LOCAL_UNICAST)
         sock = state["other_sock"] if step.get("ctx") == "other" else state["sock"]
         w.net.inject(sock, data, sockaddr(step["r"], step.get("port", 5683)), local=local)
 
@@ -333,7 +333,7 @@ def run(sched):
         r = rnum(src)
         loc = "u"
         for lvl, typ, cdata in anc:
-            if typ == 50 and cdata[:1] == b"\xff":
+            if typ == 50 and (cdata[:1] == b"\xff" or (cdata[:12] == b"\0" * 10 + b"\xff\xff" and 224 <= cdata[12] < 240)):
                 loc = "m"
         try:
             m = wire.decode(data)
